@@ -21,11 +21,14 @@ type ResSpec struct {
 
 // HookSpec is one hook resource.
 type HookSpec struct {
-	Name     string   `json:"name"`
-	Kind     string   `json:"kind"` // ConfigMap | Job
-	Events   []string `json:"events"`
-	Weight   int      `json:"weight"`
-	Policies []string `json:"policies,omitempty"` // nil = annotation absent
+	Name   string   `json:"name"`
+	Kind   string   `json:"kind"` // ConfigMap | Job
+	Events []string `json:"events"`
+	Weight int      `json:"weight"`
+	// WeightRaw, when non-empty, is rendered verbatim (inside the quotes) as the
+	// helm.sh/hook-weight annotation instead of the decimal Weight.
+	WeightRaw string   `json:"weight_raw,omitempty"`
+	Policies  []string `json:"policies,omitempty"` // nil = annotation absent
 }
 
 // ChartSpec describes a generated chart completely; it is what replays store.
@@ -63,7 +66,11 @@ func (c *ChartSpec) ID() string {
 		parts = append(parts, s)
 	}
 	for _, h := range c.Hooks {
-		parts = append(parts, fmt.Sprintf("hook:%s/%s@%s w%d %v", h.Kind, h.Name, strings.Join(h.Events, "+"), h.Weight, h.Policies))
+		w := fmt.Sprint(h.Weight)
+		if h.WeightRaw != "" {
+			w = fmt.Sprintf("%q", h.WeightRaw)
+		}
+		parts = append(parts, fmt.Sprintf("hook:%s/%s@%s w%s %v", h.Kind, h.Name, strings.Join(h.Events, "+"), w, h.Policies))
 	}
 	if c.Probe {
 		parts = append(parts, "probe")
@@ -137,7 +144,11 @@ func ResourceYAML(r ResSpec) string {
 
 // HookYAML renders a hook document.
 func HookYAML(h HookSpec) string {
-	anno := fmt.Sprintf("    helm.sh/hook: %s\n    helm.sh/hook-weight: \"%d\"\n", strings.Join(h.Events, ","), h.Weight)
+	weight := fmt.Sprint(h.Weight)
+	if h.WeightRaw != "" {
+		weight = h.WeightRaw
+	}
+	anno := fmt.Sprintf("    helm.sh/hook: %s\n    helm.sh/hook-weight: \"%s\"\n", strings.Join(h.Events, ","), weight)
 	if h.Policies != nil {
 		anno += fmt.Sprintf("    helm.sh/hook-delete-policy: %s\n", strings.Join(h.Policies, ","))
 	}
